@@ -1,6 +1,7 @@
 package props
 
 import (
+	"io"
 	"github.com/freeconf/yang/source"
 	"fmt"
 	"os"
@@ -9,6 +10,7 @@ import (
 	"strings"
 
 	"verif/harness/core"
+	"verif/harness/scn"
 
 	"github.com/freeconf/yang/meta"
 	"github.com/freeconf/yang/parser"
@@ -1282,6 +1284,95 @@ func c06probes(c *core.Ctx) {
 		}
 		if res != "" {
 			c.Violation(core.Replay{Kind: "property-failure", Class: "probe-nested-includes", Summary: "a submodule included by a submodule: " + res, Input: files})
+		}
+	}
+	// the same text, loaded again, is the same schema: whatever is bound on the way (prefixes of the submodules' imports,
+	// identities, features, augments and typedefs that come from several files) must not depend on the order in which a
+	// Go map happens to be walked
+	{
+		sets := []map[string]string{
+			{
+				"main":      `module main { namespace "urn:main"; prefix main; include sub-one; include sub-two; include sub-three; revision 2020-01-01; leaf own { type string; } }`,
+				"sub-one":   `submodule sub-one { belongs-to main { prefix main; } import lib-alpha { prefix lib; } leaf one { type lib:alpha-type; } }`,
+				"sub-two":   `submodule sub-two { belongs-to main { prefix main; } import lib-beta { prefix lib; } leaf two { type lib:beta-type; } }`,
+				"sub-three": `submodule sub-three { belongs-to main { prefix main; } import lib-gamma { prefix lib; } leaf three { type lib:gamma-type; } }`,
+				"lib-alpha": `module lib-alpha { namespace "urn:lib-alpha"; prefix la; typedef alpha-type { type string; units "alphas"; } }`,
+				"lib-beta":  `module lib-beta { namespace "urn:lib-beta"; prefix lb; typedef beta-type { type int32; units "betas"; } }`,
+				"lib-gamma": `module lib-gamma { namespace "urn:lib-gamma"; prefix lg; typedef gamma-type { type int8; units "gammas"; } }`,
+			},
+			{
+				"main":  `module main { namespace "urn:main"; prefix main; include s1; include s2; import l1 { prefix p; } revision 2020-01-01; feature f0; identity root; container c { leaf x { type string; } } }`,
+				"s1":    `submodule s1 { belongs-to main { prefix main; } import l2 { prefix q; } import l1 { prefix r; } feature f1; identity i1 { base main:root; } identity j1 { base q:far; } augment "/main:c" { leaf a1 { type r:t1; } } leaf one { type identityref { base main:root; } } }`,
+				"s2":    `submodule s2 { belongs-to main { prefix main; } import l3 { prefix q; } import l2 { prefix r; } feature f2; identity i2 { base main:root; } identity j2 { base q:far; } augment "/main:c" { leaf a2 { type r:t2; } } leaf two { type identityref { base q:far; } } }`,
+				"l1":    `module l1 { namespace "urn:l1"; prefix l1; typedef t1 { type string; units "u1"; } identity far; }`,
+				"l2":    `module l2 { namespace "urn:l2"; prefix l2; typedef t2 { type int32; units "u2"; } identity far; }`,
+				"l3":    `module l3 { namespace "urn:l3"; prefix l3; typedef t3 { type int8; units "u3"; } identity far; }`,
+			},
+		}
+		wantUnitsOf := []map[string]string{{"one": "alphas", "two": "betas", "three": "gammas"}, {"c/a1": "u1", "c/a2": "u2"}}
+		for si, files := range sets {
+			wantUnits := wantUnitsOf[si]
+			var first []string
+			res := ""
+			for i := 0; i < 60 && res == ""; i++ {
+				c.Evaluations++
+				c.Count("probe", "same text, same schema")
+				var m *meta.Module
+				var lerr error
+				perr := safeDo(func() error {
+					m, lerr = parser.LoadModule(func(name, ext string) (io.Reader, error) {
+						if y, ok := files[name]; ok {
+							return strings.NewReader(y), nil
+						}
+						return nil, fmt.Errorf("no module %s", name)
+					}, "main")
+					return nil
+				})
+				switch {
+				case perr != nil:
+					res = perr.Error()
+				case lerr != nil:
+					res = fmt.Sprintf("load %d: valid module set does not load: %v", i, lerr)
+				default:
+					perr = safeDo(func() error {
+						for p, u := range wantUnits {
+							if l, ok := meta.Find(m, p).(*meta.Leaf); ok && l.Units() != u {
+								res = fmt.Sprintf("load %d: leaf %s reads units %q, its type says %q", i, p, l.Units(), u)
+								return nil
+							}
+						}
+						// what the public accessors say (derived identities as a set), and the module every prefix written in any
+						// of the files stands for when the loaded module is asked
+						fp := strings.Split(scn.DumpMeta(m), "\n")
+						for li, line := range fp {
+							if strings.HasPrefix(line, "identities ") {
+								parts := strings.FieldsFunc(line, func(r rune) bool { return r == ',' || r == '<' || r == '>' || r == ' ' || r == '[' || r == ']' })
+								sort.Strings(parts)
+								fp[li] = strings.Join(parts, " ")
+							}
+						}
+						for _, px := range []string{"main", "lib", "p", "q", "r", "la", "lb", "lg", "l1", "l2", "l3"} {
+							if pm, perr := m.ModuleByPrefix(px); perr != nil {
+								fp = append(fp, "prefix "+px+" = error "+perr.Error())
+							} else {
+								fp = append(fp, "prefix "+px+" = "+pm.Ident())
+							}
+						}
+						if i == 0 {
+							first = fp
+						} else if d := scn.FirstDiff(first, fp); d != "" {
+							res = fmt.Sprintf("load %d of the same text gives another schema than load 0: %s", i, d)
+						}
+						return nil
+					})
+					if perr != nil {
+						res = perr.Error()
+					}
+				}
+			}
+			if res != "" {
+				c.Violation(core.Replay{Kind: "property-failure", Class: fmt.Sprintf("probe-same-text-same-schema-%d", si), Summary: "the same module set loaded repeatedly: " + res, Input: files})
+			}
 		}
 	}
 	probes = append(probes, probe{"extension below the description / reference of a must", hdr + "  extension e { argument v; }\n  leaf a { type string; must \"1\" { description \"d\" { m:e \"x3\"; } reference \"r\" { m:e \"x4\"; } } }\n}", func(m *meta.Module, err error) string {
